@@ -181,6 +181,13 @@ func (l *queue) SetMaxSegmentSize(size int64) error {
 	}
 
 	if l.tail.diskUsage() >= l.maxSegmentSize {
+		// Buffered appends belong to the current tail: write them out before it is replaced.
+		l.tail.mu.Lock()
+		err := l.tail.flush()
+		l.tail.mu.Unlock()
+		if err != nil {
+			return err
+		}
 		segment, err := l.addSegment()
 		if err != nil {
 			return err
